@@ -512,34 +512,67 @@ theorem evalSelect_from' (E : EEnv) (frm : List FromClause) (proj : List Expr) (
   simp only [Option.isSome_none, Bool.false_eq_true, if_false, hagg, List.isEmpty_nil, Bool.not_true, Bool.or_false]
   rfl
 
-/-- the frame `s0` of a hop: one row (edge, a-node, b-node) per FROM row that passes WHERE -/
-theorem hop_frame_ben (km : KindMap) (g : Graph)
+/-- a select list made of the flagged members of a list of (flag, expression, value) triples -/
+theorem evalProj_flagged (E : EEnv) (lvl : Level) : ∀ (xs : List (Bool × Expr × Val)),
+    (∀ x ∈ xs, evalExpr E x.2.1 = .ok x.2.2 ∧ x.2.1 ≠ .wildcard) →
+    evalProj E lvl ((xs.filter (·.1)).map (·.2.1)) = .ok ((xs.filter (·.1)).map (·.2.2))
+  | [], _ => by rw [List.filter_nil, List.map_nil, evalProj]; rfl
+  | x :: xs, h => by
+    have ih := evalProj_flagged E lvl xs (fun y hy => h y (List.mem_cons_of_mem _ hy))
+    obtain ⟨he, hw⟩ := h x (List.mem_cons_self ..)
+    rw [List.filter_cons]
+    cases hx : x.1 with
+    | false => simpa using ih
+    | true =>
+      simp only [if_true, List.map_cons]
+      rw [evalProj]
+      · rw [he, ih]; rfl
+      · exact hw
+
+/-- names and values of the kept bindings of a FROM row, in the order e0, n0, n1 -/
+def keptCols (ke ka kb : Bool) : List String := ([(ke, "e0"), (ka, "n0"), (kb, "n1")].filter (·.1)).map (·.2)
+def keptVals (km : KindMap) (ke ka kb : Bool) (e : EdgeRec) (a b : NodeRec) : List Val :=
+  ([(ke, edgeVal km e), (ka, nodeVal km a), (kb, nodeVal km b)].filter (·.1)).map (·.2)
+
+/-- the frame `s0` of a hop: one row per FROM row that passes WHERE, holding the kept bindings -/
+theorem hop_frame_ben (km : KindMap) (g : Graph) (ke ka kb : Bool)
     {T : Type} (ts : List T) (lv : T → Level) (eOf : T → EdgeRec) (aOf bOf : T → NodeRec) (frm : List FromClause)
     (hfrom : BenignT (evalFromClauses (E0 (encode km g)) [[]] frm) (ts.map lv))
     (hb : ∀ t ∈ ts, findBinding "e0" (lv t) = some (eB km (eOf t)) ∧ findBinding "n0" (lv t) = some (nB "n0" km (aOf t)) ∧
       findBinding "n1" (lv t) = some (nB "n1" km (bOf t)))
     (wh : Option Expr) (pw : T → Bool) (hwh : ∀ t ∈ ts, BenignT (whTest (E0 (encode km g)) wh (lv t)) (pw t)) :
-    BenignT (evalQuery (E0 (encode km g)) (Query.simple (.select false [S2.edgeComposite, S2.nodeCompositeOf "n0", S2.nodeCompositeOf "n1"] frm wh [] none)))
-      (⟨["e0", "n0", "n1"], (ts.filter pw).map (fun t => [edgeVal km (eOf t), nodeVal km (aOf t), nodeVal km (bOf t)])⟩ : Table) := by
-  rw [evalQuery_simple, evalSelect_from' _ _ _ _ (by decide)]
+    BenignT (evalQuery (E0 (encode km g)) (Query.simple (.select false (S2.frameProj ke ka kb) frm wh [] none)))
+      (⟨keptCols ke ka kb, (ts.filter pw).map (fun t => keptVals km ke ka kb (eOf t) (aOf t) (bOf t))⟩ : Table) := by
+  have hagg : hasAggL (S2.frameProj ke ka kb) = false := by cases ke <;> cases ka <;> cases kb <;> decide
+  rw [evalQuery_simple, evalSelect_from' _ _ _ _ hagg]
   simp only [bind_assoc]
   apply benT_bind hfrom
   apply benT_bind (filterE_ben lv _ pw ts hwh)
   left
-  rw [mapE_map_ok lv _ (fun t => ([edgeVal km (eOf t), nodeVal km (aOf t), nodeVal km (bOf t)], some ((E0 (encode km g)).push (lv t))))]
+  rw [mapE_map_ok lv _ (fun t => (keptVals km ke ka kb (eOf t) (aOf t) (bOf t), some ((E0 (encode km g)).push (lv t))))]
   · simp only [ebind_ok, epure_ok, List.map_map, Function.comp_def]
-    rfl
+    have hnames : ∀ (rows : List Level), projNames (S2.frameProj ke ka kb) rows = keptCols ke ka kb := by
+      intro rows; cases ke <;> cases ka <;> cases kb <;> rfl
+    rw [hnames]
   · intro t ht
     have ht' := (List.mem_filter.mp ht).1
     obtain ⟨h1, h2, h3⟩ := hb t ht'
-    rw [evalProj]
-    · rw [eval_edgeComposite km _ _ _ h1, evalProj]
-      · rw [eval_nodeCompositeOf "n0" km _ _ _ h2, evalProj]
-        · rw [eval_nodeCompositeOf "n1" km _ _ _ h3, evalProj]
-          rfl
-        · intro hh; unfold S2.nodeCompositeOf at hh; cases hh
-      · intro hh; unfold S2.nodeCompositeOf at hh; cases hh
-    · intro hh; unfold S2.edgeComposite at hh; cases hh
+    have := evalProj_flagged ((E0 (encode km g)).push (lv t)) (lv t)
+      [(ke, S2.edgeComposite, edgeVal km (eOf t)), (ka, S2.nodeCompositeOf "n0", nodeVal km (aOf t)), (kb, S2.nodeCompositeOf "n1", nodeVal km (bOf t))]
+      (by
+        intro x hx
+        simp only [List.mem_cons, List.mem_singleton, List.not_mem_nil, or_false] at hx
+        rcases hx with rfl | rfl | rfl
+        · exact ⟨eval_edgeComposite km _ _ _ h1, by unfold S2.edgeComposite; intro hh; cases hh⟩
+        · exact ⟨eval_nodeCompositeOf "n0" km _ _ _ h2, by unfold S2.nodeCompositeOf; intro hh; cases hh⟩
+        · exact ⟨eval_nodeCompositeOf "n1" km _ _ _ h3, by unfold S2.nodeCompositeOf; intro hh; cases hh⟩)
+    have hp : S2.frameProj ke ka kb = (([(ke, S2.edgeComposite, edgeVal km (eOf t)), (ka, S2.nodeCompositeOf "n0", nodeVal km (aOf t)),
+        (kb, S2.nodeCompositeOf "n1", nodeVal km (bOf t))] : List (Bool × Expr × Val)).filter (·.1)).map (·.2.1) := by
+      cases ke <;> cases ka <;> cases kb <;> rfl
+    have hv : keptVals km ke ka kb (eOf t) (aOf t) (bOf t) = (([(ke, S2.edgeComposite, edgeVal km (eOf t)), (ka, S2.nodeCompositeOf "n0", nodeVal km (aOf t)),
+        (kb, S2.nodeCompositeOf "n1", nodeVal km (bOf t))] : List (Bool × Expr × Val)).filter (·.1)).map (·.2.2) := by
+      cases ke <;> cases ka <;> cases kb <;> rfl
+    rw [hp, this, ← hv]; rfl
 
 -- ------------------------------------------------------------------ the statement: WITH s0 AS (frame) SELECT items FROM s0
 
@@ -574,17 +607,27 @@ def itemVal2 (km : KindMap) (e : EdgeRec) (a b : NodeRec) : S2.Item → Val
   | .prop .r k _ => propVal e.props k
   | .prop .b k _ => propVal b.props k
 
-theorem eval_s0col (km : KindMap) (e : EdgeRec) (a b : NodeRec) (E : EEnv) :
-    evalExpr (E.push (sLvl3 km e a b)) (S2.col "s0" "e0") = .ok (edgeVal km e) ∧
-    evalExpr (E.push (sLvl3 km e a b)) (S2.col "s0" "n0") = .ok (nodeVal km a) ∧
-    evalExpr (E.push (sLvl3 km e a b)) (S2.col "s0" "n1") = .ok (nodeVal km b) := by
-  refine ⟨?_, ?_, ?_⟩ <;> (rw [eval_col]; simp [EEnv.push, lookupQualifiedV, sLvl3, findBinding, colVals])
+def sLvlK (km : KindMap) (ke ka kb : Bool) (e : EdgeRec) (a b : NodeRec) : Level :=
+  [⟨"s0", keptCols ke ka kb, keptVals km ke ka kb e a b⟩]
 
-theorem eval_item2 (km : KindMap) (q : S2.Query) (e : EdgeRec) (a b : NodeRec) (E : EEnv) (it : S2.Item) :
-    evalExpr (E.push (sLvl3 km e a b)) (it.tr q) = .ok (itemVal2 km e a b it) := by
-  obtain ⟨he, ha, hb⟩ := eval_s0col km e a b E
-  have harrow : ∀ (x : Expr) (props : List (String × Json)) (k : String), evalExpr (E.push (sLvl3 km e a b)) x = .ok (.jsonb (.obj props)) →
-      evalExpr (E.push (sLvl3 km e a b)) (.bin "->" x (S1.strLit k)) = .ok (propVal props k) := by
+def keepOf (ke ka kb : Bool) : S2.Ref → Bool
+  | .a => ka | .r => ke | .b => kb
+
+def refVal (km : KindMap) (e : EdgeRec) (a b : NodeRec) : S2.Ref → Val
+  | .a => nodeVal km a | .r => edgeVal km e | .b => nodeVal km b
+
+theorem eval_s0colK (km : KindMap) (ke ka kb : Bool) (e : EdgeRec) (a b : NodeRec) (E : EEnv) (x : S2.Ref) (hk : keepOf ke ka kb x = true) :
+    evalExpr (E.push (sLvlK km ke ka kb e a b)) (S2.col "s0" (S2.frameName x)) = .ok (refVal km e a b x) := by
+  rw [eval_col]
+  cases x <;> cases ke <;> cases ka <;> cases kb <;> simp [keepOf] at hk <;>
+    simp [EEnv.push, lookupQualifiedV, sLvlK, keptCols, keptVals, findBinding, colVals, S2.frameName, refVal]
+
+theorem eval_item2 (km : KindMap) (q : S2.Query) (ke ka kb : Bool) (e : EdgeRec) (a b : NodeRec) (E : EEnv) (it : S2.Item)
+    (hk : keepOf ke ka kb it.ref = true) :
+    evalExpr (E.push (sLvlK km ke ka kb e a b)) (it.tr q) = .ok (itemVal2 km e a b it) := by
+  have hcol := eval_s0colK km ke ka kb e a b E it.ref hk
+  have harrow : ∀ (x : Expr) (props : List (String × Json)) (k : String), evalExpr (E.push (sLvlK km ke ka kb e a b)) x = .ok (.jsonb (.obj props)) →
+      evalExpr (E.push (sLvlK km ke ka kb e a b)) (.bin "->" x (S1.strLit k)) = .ok (propVal props k) := by
     intro x props k hx
     rw [eval_bin _ _ _ _ (by decide) (strLit_not_any k).1 (strLit_not_any k).2]
     simp only [hx, eval_strLit, ebind_ok]
@@ -593,21 +636,18 @@ theorem eval_item2 (km : KindMap) (q : S2.Query) (e : EdgeRec) (a b : NodeRec) (
     rfl
   cases it with
   | ent x al =>
-    cases x <;> (simp only [S2.Item.tr, S2.frameName, itemVal2]; rw [evalExpr]; assumption)
+    simp only [S2.Item.ref] at hcol
+    cases x <;> (simp only [S2.Item.tr, itemVal2]; rw [evalExpr]; simpa [refVal] using hcol)
   | idOf x al =>
-    cases x <;> cases al <;> simp only [S2.Item.tr, S2.frameName, itemVal2] <;>
+    simp only [S2.Item.ref] at hcol
+    cases x <;> cases al <;> simp only [S2.Item.tr, itemVal2] <;>
       (first | (rw [evalExpr, evalExpr]) | (rw [evalExpr])) <;>
-      simp [he, ha, hb, edgeVal, nodeVal, compositeFields, List.zip, List.lookup]
+      simp [hcol, refVal, edgeVal, nodeVal, compositeFields, List.zip, List.lookup]
   | prop x k al =>
-    have hpa : evalExpr (E.push (sLvl3 km e a b)) (.rowCol (S2.col "s0" "n0") "properties") = .ok (.jsonb (.obj a.props)) := by
-      rw [evalExpr, ha]; simp [nodeVal, compositeFields, List.zip, List.lookup]
-    have hpb : evalExpr (E.push (sLvl3 km e a b)) (.rowCol (S2.col "s0" "n1") "properties") = .ok (.jsonb (.obj b.props)) := by
-      rw [evalExpr, hb]; simp [nodeVal, compositeFields, List.zip, List.lookup]
-    have hpe : evalExpr (E.push (sLvl3 km e a b)) (.rowCol (S2.col "s0" "e0") "properties") = .ok (.jsonb (.obj e.props)) := by
-      rw [evalExpr, he]; simp [edgeVal, compositeFields, List.zip, List.lookup]
-    cases x <;> cases al <;> simp only [S2.Item.tr, S2.frameName, itemVal2] <;>
+    simp only [S2.Item.ref] at hcol
+    cases x <;> cases al <;> simp only [S2.Item.tr, itemVal2] <;>
       first
-        | exact harrow _ _ k hpa | exact harrow _ _ k hpe | exact harrow _ _ k hpb
-        | (rw [evalExpr]; first | exact harrow _ _ k hpa | exact harrow _ _ k hpe | exact harrow _ _ k hpb)
+        | (apply harrow; rw [evalExpr, hcol]; simp [refVal, nodeVal, edgeVal, compositeFields, List.zip, List.lookup])
+        | (rw [evalExpr]; apply harrow; rw [evalExpr, hcol]; simp [refVal, nodeVal, edgeVal, compositeFields, List.zip, List.lookup])
 
 end Dawgs.C01.Proofs
